@@ -516,6 +516,11 @@ def run_chain(case, ctx, P):
                                  "the mutation left the architecture unchanged but the network no longer computes the same outputs",
                                  top=top, method=name, args=kwargs, step=i, arch=before, **diff)
                 ctx.label("bounded-no-op")
+        if step.get("branch"):
+            # a BRANCH of the chain: the mutated clone is a sibling that is dropped, the next step clones the same parent again
+            # (what tournament selection does with a winner that is drawn twice) - the parent must be unaffected by its clone's fate
+            ctx.label("branched:parent-cloned-again-after-its-clone-was-mutated")
+            continue
         m = c
         renoise(m, case["seed"] + 7919 * (i + 1))
 
@@ -927,7 +932,7 @@ def step_strategy(draw):
     else:
         hl, n, k = draw(st.none() | st.integers(0, 3)), draw(st.none() | st.integers(0, 3)), draw(st.none() | st.integers(0, 8))
     return {"m": draw(st.integers(0, 47)), "hl": hl, "n": n, "k": k, "seed": draw(st.integers(0, 9999)),
-            "probe": draw(st.integers(0, 4)) == 0}
+            "probe": draw(st.integers(0, 4)) == 0, "branch": draw(st.integers(0, 4)) == 0}
 
 
 def walk_strategy(max_steps_quick=10, max_steps_thorough=40, family=None):
